@@ -98,11 +98,36 @@ def load(text):
         return MosFile.from_string(text)
 
 
+_REREAD = None
+
+
+def _reread_path():
+    global _REREAD
+    if _REREAD is None or not os.path.isdir(os.path.dirname(_REREAD)):
+        import atexit, shutil, tempfile
+        d = tempfile.mkdtemp(prefix='mrm-reread-')
+        atexit.register(shutil.rmtree, d, True)
+        _REREAD = os.path.join(d, 'running-order.mos.xml')
+    return _REREAD
+
+
+def inspect_quietly(mo):
+    import contextlib, io
+    try:
+        with contextlib.redirect_stdout(io.StringIO()), warnings.catch_warnings():
+            warnings.simplefilter('ignore')
+            mo.inspect()
+    except Exception:  # noqa: BLE001 - what inspect() prints or raises is C20's business
+        pass
+
+
 def add(ro, msg, via='add'):
     """``ro += msg`` on live objects (via='merge': the documented ``msg.merge(ro)``, which is what
     ``+`` calls on a running order that is not completed); returns the observation (err, warns, tree after)."""
     err = None
     cfg = apply_cfg(cfg_for(str(msg)))
+    if len(str(msg)) % 2:
+        inspect_quietly(msg)           # looking at a message is not editing it: what it carries arrives as sent
     with warnings.catch_warnings(record=True) as w:
         warnings.simplefilter('always')
         # the library never relies on deprecated behaviour: a DeprecationWarning (e.g. Element truth-testing, which
@@ -134,6 +159,16 @@ def add(ro, msg, via='add'):
                 warnings.simplefilter('ignore')
                 back = MosFile.from_string(str(ro))
             out['reread'] = {'cls': type(back).__name__, 'completed': bool(back.completed)}
+            # ... and saved over the same path every time, then loaded from it: what is read is what was just written
+            path = _reread_path()
+            with open(path, 'w', encoding='utf-8', newline='') as f:
+                f.write(str(ro))
+            os.utime(path, (1000000000, 1000000000))
+            with warnings.catch_warnings():
+                warnings.simplefilter('ignore')
+                fb = MosFile.from_file(path)
+            if (type(fb).__name__, bool(fb.completed), str(fb)) != (type(back).__name__, bool(back.completed), str(back)):
+                out['reread'] = {'cls': type(fb).__name__, 'completed': bool(fb.completed), 'from_file_differs_from_string': True}
             if out['reread'] == {'cls': 'RunningOrder', 'completed': True}:
                 # the written-out and re-read running order refuses further messages like the original
                 before = treejson.to_tree(back.xml)
